@@ -96,6 +96,9 @@ CHECKS = {
                 "of trap sites, travel, release on the last grid whose sites are vacant or vacated by the move): accepted, the atom under tone (i,j) "
                 "ends on the (i,j) site of the last grid, the source sites are vacated, every other site is unchanged; recognised per call in Coq; "
                 "and for the same transport with only the tones of two index lists lit (gemini.logical.vertical_shift via move_by_shift). "
+                "PROVED too (AodPre.v): the documented preconditions (positive spacings, ascending in-range index lists) imply the hypotheses of those "
+                "theorems, and when the played path starts on zone[src_x, src_y] and ends on zone[dst_x, dst_y] (documented_transport, evaluated in Coq "
+                "for every accepted valid rearrange call) the atom of zone[src_x[i], src_y[j]] ends on zone[dst_x[i], dst_y[j]]. "
                 "DECIDED BY ENUMERATION for the rest (multi-leg waypoint transports, the meaning of the pick/drop flags, that the recognised "
                 "paths' grids are the documented source/destination sites, gemini.logical.gr_zero_to_one) and for invalid inputs: run on the layout the module "
                 "builds for all layout sizes/spacings and index lists within the stated bounds (plus unsorted, duplicate, out-of-range, negative, "
